@@ -73,7 +73,7 @@ pub fn num<T: ToString>(v: T) -> Value {
 
 fn err_json<E: std::fmt::Debug>(e: &E, kind: ErrKind) -> Value {
     match kind {
-        ErrKind::Io => json!({"res":"err","kind":"io","line":"0","col":"0","linen":0,"coln":0,"msg":format!("{:?}", e).chars().take(80).collect::<String>()}),
+        ErrKind::Io(same) => json!({"res":"err","kind":"io","same_err":same,"line":"0","col":"0","linen":0,"coln":0,"msg":format!("{:?}", e).chars().take(80).collect::<String>()}),
         ErrKind::Syntax(line, col, msg) => {
             let cap = |x: usize| -> i64 { x.min(2_000_000_000) as i64 };
             json!({"res":"err","kind":"syntax","line":line.to_string(),"col":col.to_string(),
@@ -83,25 +83,25 @@ fn err_json<E: std::fmt::Debug>(e: &E, kind: ErrKind) -> Value {
 }
 
 enum ErrKind {
-    Io,
+    Io(bool),
     Syntax(usize, usize, String),
 }
 
 fn cnf_err(e: &flussab_cnf::ParseError) -> Value {
     match &**e {
-        flussab_cnf::InnerParseError::IoError(_) => err_json(e, ErrKind::Io),
+        flussab_cnf::InnerParseError::IoError(ioe) => err_json(e, ErrKind::Io(crate::source::is_last_fault(ioe))),
         flussab_cnf::InnerParseError::SyntaxError(s) => err_json(e, ErrKind::Syntax(s.location.line, s.location.column, s.msg.clone())),
     }
 }
 fn aig_err(e: &flussab_aiger::ParseError) -> Value {
     match &**e {
-        flussab_aiger::InnerParseError::IoError(_) => err_json(e, ErrKind::Io),
+        flussab_aiger::InnerParseError::IoError(ioe) => err_json(e, ErrKind::Io(crate::source::is_last_fault(ioe))),
         flussab_aiger::InnerParseError::SyntaxError(s) => err_json(e, ErrKind::Syntax(s.location.line, s.location.column, s.msg.clone())),
     }
 }
 fn btor_err(e: &flussab_btor2::ParseError) -> Value {
     match &**e {
-        flussab_btor2::InnerParseError::IoError(_) => err_json(e, ErrKind::Io),
+        flussab_btor2::InnerParseError::IoError(ioe) => err_json(e, ErrKind::Io(crate::source::is_last_fault(ioe))),
         flussab_btor2::InnerParseError::SyntaxError(s) => err_json(e, ErrKind::Syntax(s.location.line, s.location.column, s.msg.clone())),
     }
 }
@@ -194,7 +194,7 @@ fn prefilled(mut src: Source, cap: usize) -> BufReader<Source> {
     src.log = false;
     let saved = src.intr_pm;
     src.intr_pm = 0;
-    let mut br = BufReader::with_capacity(cap.max(1), src);
+    let mut br = BufReader::with_capacity(cap, src); // capacity 0 is legal: a pass-through BufReader
     let _ = br.fill_buf().map(|b| b.len()).unwrap_or(0);
     {
         let inner = br.get_mut();
